@@ -269,14 +269,13 @@ HoldsC01(cl, o) ==
 \* to the model identifier the binder gave that object ("?n" for an identifier it never created);
 \* doc.refs = << <<kind, id, path>> ... >> every mention of an identifier anywhere else in the document;
 \* doc.parents = << <<position of child, position of parent>> ... >> within defs["sequence"] (0 = not defined).
-DefCount(doc, k, n) == Cardinality({i \in DOMAIN doc.defs[k] : doc.defs[k][i] = n})
 \* the distinct objects reachable from the saved collection: exactly the objects of the exported world
 ExpectSet(o, k) == {o.in.objs[i].id : i \in {x \in DOMAIN o.in.objs : o.in.objs[x].kind = k}}
 HoldsC02(cl, o) ==
   \A i \in DOMAIN Cyc(o) : Cyc(o)[i].saved = "" =>
     LET doc == Cyc(o)[i].doc IN
-    CASE cl = "Closed"      -> \A j \in DOMAIN doc.refs : DefCount(doc, doc.refs[j][1], doc.refs[j][2]) >= 1
-      [] cl = "DefinedOnce" -> \A k \in DocKinds : \A j \in DOMAIN doc.defs[k] : DefCount(doc, k, doc.defs[k][j]) = 1
+    CASE cl = "Closed"      -> \A k \in DocKinds : {doc.refs[j][2] : j \in {x \in DOMAIN doc.refs : doc.refs[x][1] = k}} \subseteq Range(doc.defs[k])
+      [] cl = "DefinedOnce" -> \A k \in DocKinds : Cardinality(Range(doc.defs[k])) = Len(doc.defs[k])
       [] cl = "ParentFirst" -> \A j \in DOMAIN doc.parents : doc.parents[j][2] >= 1 /\ doc.parents[j][2] < doc.parents[j][1]
       [] cl = "NothingMissing"     -> \A k \in DocKinds : ExpectSet(o, k) \subseteq Range(doc.defs[k])
       [] cl = "NothingUnreachable" -> \A k \in DocKinds : Range(doc.defs[k]) \subseteq ExpectSet(o, k)
